@@ -1,5 +1,9 @@
 import CuqiVerif.Proofs.C20_rank
 import Mathlib.Data.Real.Basic
+import Mathlib.Analysis.Matrix.PosDef
+import Mathlib.Algebra.Order.Star.Real
+import Mathlib.Analysis.SpecialFunctions.Log.Basic
+import Mathlib.Analysis.SpecialFunctions.Trigonometric.Basic
 
 /-!
 # C20 — rank theorems: the null spaces as linear-algebra invariants
@@ -69,6 +73,10 @@ theorem ker_precision_eq (D : FMat) :
       = LinearMap.ker (toMatrix (K := K) D).mulVecLin := by
   rw [(toMatrix_gram D).2, Matrix.ker_mulVecLin_transpose_mul_self]
 
+example : LinearMap.ker (precMatrix (K := ℚ) (diffOp 2 .neumann 6)).mulVecLin
+    = LinearMap.ker (toMatrix (K := ℚ) (diffOp 2 .neumann 6)).mulVecLin :=
+  ker_precision_eq _
+
 /-- **`rank (DᵀD) = rank D`:** the rank of the precision GMRF uses is the rank of its difference
     operator (any `D`, any shape). -/
 theorem rank_precision_eq (D : FMat) :
@@ -131,6 +139,11 @@ theorem ker_diffOp_affine {order : ℕ} {bc : BC} (h : KerAffine order bc) (n : 
 example : LinearMap.ker (toMatrix (K := ℚ) (diffOp 2 .neumann 7)).mulVecLin
     = Submodule.span ℚ (Set.range (genAffine (K := ℚ) 7)) :=
   ker_diffOp_affine ⟨le_refl 2, rfl⟩ 7
+
+/-- the kernel of the precision GMRF uses, as a span of explicit vectors -/
+example : LinearMap.ker (precMatrix (K := ℚ) (diffOp 2 .neumann 6)).mulVecLin
+    = Submodule.span ℚ (Set.range (genAffine (K := ℚ) 6)) :=
+  (ker_precision_eq _).trans (ker_diffOp_affine ⟨le_refl 2, rfl⟩ 6)
 
 /-- **Rank of every 1-D operator, every size:** `rank D = n - nullity1D order bc`, for every
     combination the code accepts (`SecondOrderFiniteDifference` raises for backward/none) and, for
@@ -202,21 +215,23 @@ example : Module.finrank ℚ (LinearMap.ker
     (precMatrix (K := ℚ) (diffOp 2 .neumann 6)).mulVecLin) = 2 :=
   finrank_ker_precision_1D 2 .neumann 6 (by norm_num) (Or.inr rfl) (by simp)
 
-/-- **GMRF's declared rank versus `Matrix.rank` of its precision (1-D, `n ≥ 3`):**
+/-- **GMRF's declared rank versus `Matrix.rank` of its precision (1-D, `n ≥ 2`; `n ≥ 3` for
+    periodic of order ≥ 2, cf. `rank_precision_periodic_n2`):**
     `declaredRank bc n = rank P` holds **exactly** for zero bc (any order), order 1 with
     periodic/Neumann, and order ≥ 2 with periodic; every other accepted combination declares a wrong
     rank. -/
-theorem declaredRank_eq_rank_iff (order : ℕ) (bc : BC) (n : ℕ) (hn : 3 ≤ n)
-    (hacc : order ≤ 1 ∨ secondOrderAccepts bc = true) :
+theorem declaredRank_eq_rank_iff (order : ℕ) (bc : BC) (n : ℕ) (hn : 2 ≤ n)
+    (hacc : order ≤ 1 ∨ secondOrderAccepts bc = true)
+    (hn3 : 2 ≤ order → bc = .periodic → 3 ≤ n) :
     declaredRank bc n = (precMatrix (K := K) (diffOp order bc n)).rank
       ↔ (bc = .zero ∨ (order = 1 ∧ (bc = .periodic ∨ bc = .neumann))
           ∨ (2 ≤ order ∧ bc = .periodic)) := by
-  rw [rank_precision_1D order bc n hacc (fun _ => ⟨fun _ => by omega, fun _ => hn⟩)]
-  exact declaredRank_eq_iff order bc n (by omega)
+  rw [rank_precision_1D order bc n hacc (fun hb => ⟨fun _ => hn, fun ho => hn3 ho hb⟩)]
+  exact declaredRank_eq_iff order bc n hn
 
 example : declaredRank .neumann 8
     = (precMatrix (K := ℝ) (diffOp 1 .neumann 8)).rank :=
-  (declaredRank_eq_rank_iff 1 .neumann 8 (by norm_num) (Or.inl (le_refl 1))).2 (by simp)
+  (declaredRank_eq_rank_iff 1 .neumann 8 (by norm_num) (Or.inl (le_refl 1)) (by simp)).2 (by simp)
 
 /-- **Known finding, order 0 with periodic/Neumann, every `n ≥ 1`, as a rank statement:** the
     precision has full rank `n`, one more than GMRF declares. -/
@@ -253,6 +268,522 @@ example : declaredRank .neumann 6
     = (precMatrix (K := ℝ) (diffOp 2 .neumann 6)).rank + 1 :=
   (declaredRank_excess_order2_neumann 6 (by norm_num)).2
 
+/-- **Known finding, order 2 periodic at the degenerate size `n = 2`, as a rank statement:** the
+    boundary patches overwrite each other, the precision is `[[10,-8],[-8,10]]` (determinant 36) and
+    has full rank 2, while GMRF declares rank 1 (`rank_precision_1D` needs `n ≥ 3` for exactly this
+    reason). -/
+theorem rank_precision_periodic_n2 :
+    (precMatrix (K := K) (diffOp 2 .periodic 2)) = !![10, -8; -8, 10]
+      ∧ (precMatrix (K := K) (diffOp 2 .periodic 2)).rank = 2
+      ∧ declaredRank .periodic 2 = 1 := by
+  have hM : (precMatrix (K := K) (diffOp 2 .periodic 2)) = !![10, -8; -8, 10] := by
+    ext i j
+    fin_cases i <;> fin_cases j
+    · show (((gram (diffOp 2 .periodic 2)).e 0 0 : ℤ) : K) = 10
+      rw [show (gram (diffOp 2 .periodic 2)).e 0 0 = 10 by decide]; norm_num
+    · show (((gram (diffOp 2 .periodic 2)).e 0 1 : ℤ) : K) = -8
+      rw [show (gram (diffOp 2 .periodic 2)).e 0 1 = -8 by decide]; norm_num
+    · show (((gram (diffOp 2 .periodic 2)).e 1 0 : ℤ) : K) = -8
+      rw [show (gram (diffOp 2 .periodic 2)).e 1 0 = -8 by decide]; norm_num
+    · show (((gram (diffOp 2 .periodic 2)).e 1 1 : ℤ) : K) = 10
+      rw [show (gram (diffOp 2 .periodic 2)).e 1 1 = 10 by decide]; norm_num
+  have hdet : (!![10, -8; -8, 10] : Matrix (Fin 2) (Fin 2) K).det ≠ 0 := by
+    rw [Matrix.det_fin_two_of]; norm_num
+  have hr : (!![10, -8; -8, 10] : Matrix (Fin 2) (Fin 2) K).rank = 2 := by
+    rw [Matrix.rank_of_det_ne_zero hdet, Fintype.card_fin]
+  exact ⟨hM, (congrArg Matrix.rank hM).trans hr, rfl⟩
+
+example : (precMatrix (K := ℝ) (diffOp 2 .periodic 2)).rank = declaredRank .periodic 2 + 1 := by
+  rw [(rank_precision_periodic_n2 (K := ℝ)).2.1, (rank_precision_periodic_n2 (K := ℝ)).2.2]
+
 end precision1D
 
+/-! ## 2. 2-D (`n × n` images, `n²` pixels `j = a·n + c`): kernel, explicit basis, rank -/
+
+section kernels2D
+variable {K : Type*} [Field K] [CharZero K]
+
+omit [CharZero K] in
+/-- **2-D kernel, trivial class** (zero bc of any order ≥ 1; order 0 with any bc; also 2-D
+    backward/none of order 1): `ker = ⊥`, every `n`. -/
+theorem ker_diffOp2D_trivial {order : ℕ} {bc : BC} (h : KerTrivial order bc) (n : ℕ) :
+    LinearMap.ker (toMatrix (K := K) (diffOp2D order bc n)).mulVecLin = ⊥ :=
+  ker_eq_bot_of_null _ (diffOp2D_null_trivial h n)
+
+example : LinearMap.ker (toMatrix (K := ℚ) (diffOp2D 1 .zero 5)).mulVecLin = ⊥ :=
+  ker_diffOp2D_trivial (Or.inr (Or.inl ⟨rfl, Or.inl rfl⟩)) 5
+
+/-- **2-D kernel, constants class** (order 1 Neumann; order 1 periodic `n ≥ 2`; order ≥ 2 periodic
+    `n ≥ 3`): `ker = span {1}` — the constant images. -/
+theorem ker_diffOp2D_const {order : ℕ} {bc : BC} {n : ℕ} (h : KerConst order bc n) :
+    LinearMap.ker (toMatrix (K := K) (diffOp2D order bc n)).mulVecLin
+      = Submodule.span K (Set.range (genConst (K := K) (diffOp2D order bc n).cols)) :=
+  ker_eq_span_const_of_null _ (diffOp2D_null_const h)
+
+example : LinearMap.ker (toMatrix (K := ℚ) (diffOp2D 1 .neumann 5)).mulVecLin
+    = Submodule.span ℚ (Set.range (genConst (K := ℚ) (5 * 5))) :=
+  ker_diffOp2D_const (Or.inr (Or.inl ⟨rfl, rfl⟩))
+
+omit [CharZero K] in
+/-- **2-D kernel, order ≥ 2 Neumann (`n ≥ 2`):** `ker = span {1, c, a, a·c}` — the bilinear images,
+    four independent null vectors where GMRF assumes one. -/
+theorem ker_diffOp2D_bilinear {order : ℕ} {bc : BC} (h : KerAffine order bc) (n : ℕ) (hn : 2 ≤ n) :
+    LinearMap.ker (toMatrix (K := K) (diffOp2D order bc n)).mulVecLin
+      = Submodule.span K (Set.range (genBilinear (K := K) n (diffOp2D order bc n).cols)) :=
+  ker_eq_span_bilinear_of_null _ n hn (diffOp2D_cols_of_class (Or.inr (Or.inr h)))
+    (diffOp2D_null_bilinear h n)
+
+example : LinearMap.ker (toMatrix (K := ℚ) (diffOp2D 2 .neumann 5)).mulVecLin
+    = Submodule.span ℚ (Set.range (genBilinear (K := ℚ) 5 (5 * 5))) :=
+  ker_diffOp2D_bilinear ⟨le_refl 2, rfl⟩ 5 (by norm_num)
+
+/-- **Rank of every 2-D operator, every `n × n`:** `rank D₂ = n² - (nullity1D order bc)²`
+    (constants: nullity 1; order 2 Neumann: nullity 4; zero bc / order 0: full rank). -/
+theorem rank_diffOp2D (order : ℕ) (bc : BC) (n : ℕ)
+    (hacc : order ≤ 1 ∨ secondOrderAccepts bc = true)
+    (hper : bc = .periodic → (order = 1 → 2 ≤ n) ∧ (2 ≤ order → 3 ≤ n)) :
+    (toMatrix (K := K) (diffOp2D order bc n)).rank = n * n - nullity1D order bc ^ 2 := by
+  have hcls := class_of_accepted hacc hper
+  have hcols := diffOp2D_cols_of_class hcls
+  rcases hcls with h | h | h
+  · have := rank_of_ker_bot _ (ker_diffOp2D_trivial (K := K) h n)
+    rw [(nullity1D_of_class (n := n)).1 h, this, hcols]; rfl
+  · rw [(nullity1D_of_class (n := n)).2.1 h]
+    rcases Nat.lt_or_ge n 1 with hn | hn
+    · have := Matrix.rank_le_width (toMatrix (K := K) (diffOp2D order bc n))
+      have h0 : n = 0 := by omega
+      subst h0
+      omega
+    · have hnn : 1 ≤ n * n := Nat.mul_le_mul hn hn
+      have := rank_add_of_ker_span _ _ (genConst_li (K := K) (by rw [hcols]; exact hnn))
+        (ker_diffOp2D_const h)
+      omega
+  · rw [(nullity1D_of_class (n := n)).2.2 h]
+    rcases Nat.lt_or_ge n 2 with hn | hn
+    · have hr : (diffOp2D order bc n).rows = 0 := by
+        obtain ⟨h2, rfl⟩ := h
+        obtain ⟨k, rfl⟩ : ∃ k, order = k + 2 := ⟨order - 2, by omega⟩
+        show n * (n - 2) + (n - 2) * n = 0
+        have : n - 2 = 0 := by omega
+        rw [this]; simp
+      have := Matrix.rank_le_height (toMatrix (K := K) (diffOp2D order bc n))
+      have hnn : n * n ≤ 1 := by
+        have : n = 0 ∨ n = 1 := by omega
+        rcases this with rfl | rfl <;> norm_num
+      omega
+    · have := rank_add_of_ker_span _ _
+        (show LinearIndependent K (genBilinear (K := K) n (diffOp2D order bc n).cols) by
+          rw [hcols]; exact genBilinear_li hn)
+        (ker_diffOp2D_bilinear h n hn)
+      omega
+
+example : (toMatrix (K := ℚ) (diffOp2D 2 .neumann 5)).rank = 21 :=
+  rank_diffOp2D 2 .neumann 5 (Or.inr rfl) (by simp)
+
+end kernels2D
+
+section precision2D
+variable {K : Type*} [Field K] [LinearOrder K] [IsStrictOrderedRing K]
+
+/-- **Rank of every 2-D precision:** `rank (D₂ᵀD₂) = n² - (nullity1D order bc)²`. -/
+theorem rank_precision2D (order : ℕ) (bc : BC) (n : ℕ)
+    (hacc : order ≤ 1 ∨ secondOrderAccepts bc = true)
+    (hper : bc = .periodic → (order = 1 → 2 ≤ n) ∧ (2 ≤ order → 3 ≤ n)) :
+    (precMatrix (K := K) (diffOp2D order bc n)).rank = n * n - nullity1D order bc ^ 2 := by
+  rw [rank_precision_eq, rank_diffOp2D order bc n hacc hper]
+
+example : (precMatrix (K := ℝ) (diffOp2D 1 .periodic 4)).rank = 15 :=
+  rank_precision2D 1 .periodic 4 (Or.inl (le_refl 1)) (by simp)
+
+/-- **Nullity of every 2-D precision (`n ≥ 2`):** `dim ker (D₂ᵀD₂) = (nullity1D order bc)²` —
+    `0`, `1` (constant images) or `4` (bilinear images), with the bases of `ker_diffOp2D_*`. -/
+theorem finrank_ker_precision2D (order : ℕ) (bc : BC) (n : ℕ) (hn : 2 ≤ n)
+    (hacc : order ≤ 1 ∨ secondOrderAccepts bc = true)
+    (hper : bc = .periodic → (order = 1 → 2 ≤ n) ∧ (2 ≤ order → 3 ≤ n)) :
+    Module.finrank K (LinearMap.ker (precMatrix (K := K) (diffOp2D order bc n)).mulVecLin)
+      = nullity1D order bc ^ 2 := by
+  have hcols := diffOp2D_cols_of_class (class_of_accepted hacc hper)
+  have h1 := LinearMap.finrank_range_add_finrank_ker
+    (precMatrix (K := K) (diffOp2D order bc n)).mulVecLin
+  have h2 := rank_precision2D (K := K) order bc n hacc hper
+  unfold Matrix.rank at h2
+  rw [h2, Module.finrank_fin_fun] at h1
+  have h3 : nullity1D order bc ≤ 2 := by
+    unfold nullity1D; split <;> omega
+  have h4 : nullity1D order bc ^ 2 ≤ 2 ^ 2 := Nat.pow_le_pow_left h3 2
+  have hnn : 4 ≤ n * n := Nat.mul_le_mul hn hn
+  omega
+
+example : Module.finrank ℚ (LinearMap.ker
+    (precMatrix (K := ℚ) (diffOp2D 2 .neumann 5)).mulVecLin) = 4 :=
+  finrank_ker_precision2D 2 .neumann 5 (by norm_num) (Or.inr rfl) (by simp)
+
+/-- **GMRF's declared rank versus `Matrix.rank` of its 2-D precision (`n ≥ 2`; `n ≥ 3` for periodic
+    of order ≥ 2):**
+    `declaredRank bc n² = rank P₂` holds **exactly** for the same combinations as in 1-D: zero bc,
+    order 1 periodic/Neumann, order ≥ 2 periodic. -/
+theorem declaredRank_eq_rank2D_iff (order : ℕ) (bc : BC) (n : ℕ) (hn : 2 ≤ n)
+    (hacc : order ≤ 1 ∨ secondOrderAccepts bc = true)
+    (hn3 : 2 ≤ order → bc = .periodic → 3 ≤ n) :
+    declaredRank bc (n * n) = (precMatrix (K := K) (diffOp2D order bc n)).rank
+      ↔ (bc = .zero ∨ (order = 1 ∧ (bc = .periodic ∨ bc = .neumann))
+          ∨ (2 ≤ order ∧ bc = .periodic)) := by
+  rw [rank_precision2D order bc n hacc (fun hb => ⟨fun _ => hn, fun ho => hn3 ho hb⟩)]
+  have hnn : 4 ≤ n * n := Nat.mul_le_mul hn hn
+  match order with
+  | 0 => cases bc <;> simp [declaredRank, nullity1D] <;> omega
+  | 1 => cases bc <;> simp [declaredRank, nullity1D] <;> omega
+  | k + 2 => cases bc <;> simp [declaredRank, nullity1D] <;> omega
+
+example : declaredRank .periodic (4 * 4) = (precMatrix (K := ℝ) (diffOp2D 2 .periodic 4)).rank :=
+  (declaredRank_eq_rank2D_iff 2 .periodic 4 (by norm_num) (Or.inr rfl) (by simp)).2 (by simp)
+
+/-- **Known findings in 2-D as rank statements:** order 0 with periodic/Neumann (`n ≥ 1`): full
+    rank `n²`, one more than declared; order 2 Neumann (`n ≥ 2`): rank `n² - 4`, three less than
+    the declared `n² - 1`. -/
+theorem declaredRank_wrong_2D (n : ℕ) :
+    (∀ bc, bc = BC.periodic ∨ bc = BC.neumann → 1 ≤ n →
+        (precMatrix (K := K) (diffOp2D 0 bc n)).rank = declaredRank bc (n * n) + 1)
+      ∧ (2 ≤ n → (precMatrix (K := K) (diffOp2D 2 .neumann n)).rank = n * n - 4
+          ∧ declaredRank .neumann (n * n)
+              = (precMatrix (K := K) (diffOp2D 2 .neumann n)).rank + 3) := by
+  constructor
+  · intro bc hbc hn
+    have hnn : 1 ≤ n * n := Nat.mul_le_mul hn hn
+    rw [rank_precision2D 0 bc n (Or.inl (Nat.zero_le 1))
+      (fun _ => ⟨fun h => absurd h (by decide), fun h => absurd h (by decide)⟩)]
+    rcases hbc with rfl | rfl <;> simp [declaredRank, nullity1D] <;> omega
+  · intro hn
+    have hnn : 4 ≤ n * n := Nat.mul_le_mul hn hn
+    rw [rank_precision2D 2 .neumann n (Or.inr rfl) (by simp)]
+    simp [declaredRank, nullity1D]; omega
+
+example : declaredRank .neumann (3 * 3)
+    = (precMatrix (K := ℝ) (diffOp2D 2 .neumann 3)).rank + 3 :=
+  ((declaredRank_wrong_2D 3).2 (by norm_num)).2
+
+end precision2D
+
+/-! ## 3. Division by the grid spacing (`Dmat/self._dx`, `Dmat/self._dx**2`)
+
+The model file holds the integer stencils; the 1-D operators of the code divide them entrywise by
+`dx` (order 1) or `dx²` (order 2).  `scaledMatrix M s` is that entrywise quotient over a field. -/
+
+section scaling
+variable {K : Type*} [Field K]
+
+/-- `Dmat / s`, entrywise -/
+def scaledMatrix (M : FMat) (s : K) : Matrix (Fin M.rows) (Fin M.cols) K :=
+  fun i j => (M.e i j : K) / s
+
+/-- `FirstOrderFiniteDifference(n, bc_type=bc, dx=dx)._matrix` in 1-D: `Dmat/self._dx` -/
+def firstOrderScaled (bc : BC) (n : ℕ) (dx : K) : Matrix (Fin (firstOrder bc n).rows) (Fin (firstOrder bc n).cols) K :=
+  scaledMatrix (firstOrder bc n) dx
+
+/-- `SecondOrderFiniteDifference(n, bc_type=bc, dx=dx)._matrix` in 1-D: `Dmat/self._dx**2` -/
+def secondOrderScaled (bc : BC) (n : ℕ) (dx : K) : Matrix (Fin (secondOrder bc n).rows) (Fin (secondOrder bc n).cols) K :=
+  scaledMatrix (secondOrder bc n) (dx ^ 2)
+
+/-- **The scaled operator is `s⁻¹ ·` the integer stencil matrix**, and for spacing 1 (the code's
+    default `dx=None`) it is the stencil matrix itself. -/
+theorem scaledMatrix_eq_smul (M : FMat) (s : K) :
+    scaledMatrix M s = s⁻¹ • toMatrix (K := K) M ∧ scaledMatrix M (1 : K) = toMatrix M := by
+  constructor
+  · ext i j
+    simp only [scaledMatrix, toMatrix, Matrix.smul_apply, smul_eq_mul]
+    rw [div_eq_inv_mul]
+  · ext i j
+    simp only [scaledMatrix, toMatrix, div_one]
+
+example : firstOrderScaled .zero 4 (1 : ℚ) = toMatrix (firstOrder .zero 4) :=
+  (scaledMatrix_eq_smul _ (1 : ℚ)).2
+
+/-- **Action of the scaled operator = stencil divided by the spacing factor**, every row. -/
+theorem scaledMatrix_mulVec (M : FMat) (s : K) (v : Fin M.cols → K) (i : Fin M.rows) :
+    (scaledMatrix M s).mulVec v i = apply M (ext0 v) i / s := by
+  rw [(scaledMatrix_eq_smul M s).1, Matrix.smul_mulVec, Pi.smul_apply, toMatrix_mulVec,
+    smul_eq_mul, div_eq_inv_mul]
+
+example (v : Fin (firstOrder .none 3).cols → ℚ) (i : Fin (firstOrder .none 3).rows) :
+    (scaledMatrix (firstOrder .none 3) (4 : ℚ)).mulVec v i = ext0 v i / 4 := by
+  have hi : (i : ℕ) < 3 := i.2
+  rw [scaledMatrix_mulVec, firstOrder_none_apply, if_pos hi]
+
+/-- **`FirstOrderFiniteDifference` with spacing `dx`: `(D x)_i = stencil_i(x) / dx`** for every
+    boundary condition, size and row (the stencils are the `firstOrder_*_apply` theorems). -/
+theorem firstOrderScaled_mulVec (bc : BC) (n : ℕ) (dx : K) (v : Fin (firstOrder bc n).cols → K)
+    (i : Fin (firstOrder bc n).rows) :
+    (firstOrderScaled bc n dx).mulVec v i = apply (firstOrder bc n) (ext0 v) i / dx :=
+  scaledMatrix_mulVec _ _ _ _
+
+example (dx : ℚ) (v : Fin (firstOrder .neumann 5).cols → ℚ) (i : Fin (firstOrder .neumann 5).rows) :
+    (firstOrderScaled .neumann 5 dx).mulVec v i = (ext0 v (i + 1) - ext0 v i) / dx := by
+  have hi : (i : ℕ) < 4 := i.2
+  rw [firstOrderScaled_mulVec, firstOrder_neumann_apply, if_pos (by omega), if_pos (by omega)]
+
+/-- **`SecondOrderFiniteDifference` with spacing `dx`: `(D x)_i = stencil_i(x) / dx²`.** -/
+theorem secondOrderScaled_mulVec (bc : BC) (n : ℕ) (dx : K) (v : Fin (secondOrder bc n).cols → K)
+    (i : Fin (secondOrder bc n).rows) :
+    (secondOrderScaled bc n dx).mulVec v i = apply (secondOrder bc n) (ext0 v) i / dx ^ 2 :=
+  scaledMatrix_mulVec _ _ _ _
+
+example (dx : ℚ) (v : Fin (secondOrder .neumann 5).cols → ℚ) (i : Fin (secondOrder .neumann 5).rows) :
+    (secondOrderScaled .neumann 5 dx).mulVec v i
+      = (-ext0 v i + 2 * ext0 v (i + 1) - ext0 v (i + 2)) / dx ^ 2 := by
+  have hi : (i : ℕ) < 3 := i.2
+  rw [secondOrderScaled_mulVec, secondOrder_neumann_apply, if_pos (by omega), if_pos (by omega),
+    if_pos (by omega)]
+
+/-- **The null space does not depend on the spacing** (`s ≠ 0`): the scaled operator has exactly
+    the kernel of the integer stencil matrix. -/
+theorem ker_scaledMatrix (M : FMat) {s : K} (hs : s ≠ 0) :
+    LinearMap.ker (scaledMatrix M s).mulVecLin = LinearMap.ker (toMatrix (K := K) M).mulVecLin := by
+  ext v
+  simp only [LinearMap.mem_ker, Matrix.mulVecLin_apply]
+  rw [(scaledMatrix_eq_smul M s).1, Matrix.smul_mulVec]
+  exact smul_eq_zero_iff_right (inv_ne_zero hs)
+
+example : LinearMap.ker (firstOrderScaled .neumann 6 (3 / 10 : ℚ)).mulVecLin
+    = Submodule.span ℚ (Set.range (genConst (K := ℚ) 6)) :=
+  (ker_scaledMatrix _ (by norm_num)).trans (ker_diffOp_const (order := 1) (Or.inr (Or.inl ⟨rfl, rfl⟩)))
+
+/-- **The rank does not depend on the spacing** (`s ≠ 0`). -/
+theorem rank_scaledMatrix (M : FMat) {s : K} (hs : s ≠ 0) :
+    (scaledMatrix M s).rank = (toMatrix (K := K) M).rank := by
+  rw [(scaledMatrix_eq_smul M s).1]
+  exact Matrix.rank_smul_of_mem_nonZeroDivisors _ (mem_nonZeroDivisors_of_ne_zero (inv_ne_zero hs))
+
+example : (scaledMatrix (diffOp2D 1 .zero 3) (7 : ℚ)).rank = (toMatrix (K := ℚ) (diffOp2D 1 .zero 3)).rank :=
+  rank_scaledMatrix _ (by norm_num)
+
+/-- **Rank of the 1-D operators with any spacing `dx ≠ 0`, every size:** as for `dx = 1`,
+    `n - nullity1D order bc`. -/
+theorem rank_scaled_1D [CharZero K] (bc : BC) (n : ℕ) {dx : K} (hdx : dx ≠ 0) :
+    ((bc = .periodic → 2 ≤ n) → (firstOrderScaled bc n dx).rank = n - nullity1D 1 bc)
+      ∧ (secondOrderAccepts bc = true → (bc = .periodic → 3 ≤ n) →
+          (secondOrderScaled bc n dx).rank = n - nullity1D 2 bc) := by
+  constructor
+  · intro hper
+    rw [firstOrderScaled, rank_scaledMatrix _ hdx]
+    exact rank_diffOp_1D 1 bc n (Or.inl (le_refl 1))
+      (fun h => ⟨fun _ => hper h, fun h2 => absurd h2 (by decide)⟩)
+  · intro hacc hper
+    rw [secondOrderScaled, rank_scaledMatrix _ (pow_ne_zero 2 hdx)]
+    exact rank_diffOp_1D 2 bc n (Or.inr hacc)
+      (fun h => ⟨fun h1 => absurd h1 (by decide), fun _ => hper h⟩)
+
+example : (secondOrderScaled .neumann 8 (1 / 2 : ℚ)).rank = 6 :=
+  (rank_scaled_1D .neumann 8 (by norm_num)).2 rfl (by simp)
+
+/-- **Precision built from a scaled operator:** `(D/s)ᵀ(D/s) = s⁻² · DᵀD`. -/
+theorem scaledMatrix_gram (D : FMat) (s : K) :
+    (scaledMatrix D s).transpose * scaledMatrix D s = (s ^ 2)⁻¹ • precMatrix (K := K) D := by
+  rw [(scaledMatrix_eq_smul D s).1, (toMatrix_gram D).2, Matrix.transpose_smul, Matrix.smul_mul,
+    Matrix.mul_smul, smul_smul, pow_two, mul_inv]
+
+example : (scaledMatrix (firstOrder .neumann 4) (2 : ℚ)).transpose
+      * scaledMatrix (firstOrder .neumann 4) (2 : ℚ)
+    = ((2 : ℚ) ^ 2)⁻¹ • precMatrix (firstOrder .neumann 4) :=
+  scaledMatrix_gram _ _
+
+end scaling
+
+/-! ## 4. GMRF / LMRF / CMRF over `ℝ`
+
+The evaluation code of the distributions is transcribed here (not in the model file):
+`GMRF.logpdf` (`_gmrf.py`), `LMRF.logpdf` (`_lmrf.py`), `CMRF.logpdf` (`_cmrf.py`), with
+`self._diff_op` / `self._prec_op` the model's operators. -/
+
+section gmrf
+open Matrix
+
+/-- `xᵀ(AᵀA)x = (Ax)·(Ax)` -/
+lemma quad_transpose_mul_self {m n : ℕ} (A : Matrix (Fin m) (Fin n) ℝ) (x : Fin n → ℝ) :
+    x ⬝ᵥ ((Aᵀ * A).mulVec x) = (A.mulVec x) ⬝ᵥ (A.mulVec x) := by
+  rw [← Matrix.mulVec_mulVec, Matrix.dotProduct_mulVec, Matrix.vecMul_transpose]
+
+/-- **`xᵀ P x = ‖D x‖²` in Mathlib terms** (the precision is the one the driver prints). -/
+theorem precMatrix_quadratic_form (D : FMat) (x : Fin D.cols → ℝ) :
+    x ⬝ᵥ ((precMatrix D).mulVec x) = ∑ k, ((toMatrix D).mulVec x k) ^ 2 := by
+  rw [(toMatrix_gram D).2, quad_transpose_mul_self]
+  exact Finset.sum_congr rfl fun k _ => (pow_two _).symm
+
+example : (restr _ fun j => ((j : ℝ) + 1) ^ 2) ⬝ᵥ
+      ((precMatrix (firstOrder .neumann 3)).mulVec (restr _ fun j => ((j : ℝ) + 1) ^ 2))
+    = ∑ k, ((toMatrix (firstOrder .neumann 3)).mulVec (restr _ fun j => ((j : ℝ) + 1) ^ 2) k) ^ 2 :=
+  precMatrix_quadratic_form _ _
+
+/-- **Certificate for `GMRF.sqrtprec` (`gmrf_sqrtprec_cert`):** for *any* matrix `R` with
+    `RᵀR = δ·P` — the identity the harness checks on the implementation's `sqrtprec` —
+    `xᵀ(δP)x = ‖Rx‖² = δ‖Dx‖²`: `R` whitens exactly the Gaussian with precision `δ·DᵀD`. -/
+theorem gmrf_sqrtprec_cert (D : FMat) {r : ℕ} (R : Matrix (Fin r) (Fin D.cols) ℝ) (δ : ℝ)
+    (hR : Rᵀ * R = δ • precMatrix D) (x : Fin D.cols → ℝ) :
+    x ⬝ᵥ ((δ • precMatrix D).mulVec x) = (R.mulVec x) ⬝ᵥ (R.mulVec x)
+      ∧ (R.mulVec x) ⬝ᵥ (R.mulVec x) = δ * ∑ k, ((toMatrix D).mulVec x k) ^ 2 := by
+  have h1 : x ⬝ᵥ ((δ • precMatrix D).mulVec x) = (R.mulVec x) ⬝ᵥ (R.mulVec x) := by
+    rw [← hR, quad_transpose_mul_self]
+  refine ⟨h1, ?_⟩
+  rw [← h1, Matrix.smul_mulVec, dotProduct_smul, smul_eq_mul, precMatrix_quadratic_form]
+
+example (x : Fin (firstOrder .neumann 3).cols → ℝ) :
+    (((2 : ℝ) • toMatrix (firstOrder .neumann 3)).mulVec x)
+        ⬝ᵥ (((2 : ℝ) • toMatrix (firstOrder .neumann 3)).mulVec x)
+      = 4 * ∑ k, ((toMatrix (firstOrder .neumann 3)).mulVec x k) ^ 2 := by
+  refine (gmrf_sqrtprec_cert (firstOrder .neumann 3) _ 4 ?_ x).2
+  rw [(toMatrix_gram _).2, Matrix.transpose_smul, Matrix.smul_mul, Matrix.mul_smul, smul_smul]
+  norm_num
+
+/-- `GMRF.logpdf(x)`:
+    `0.5*(rank*(log(prec) - log(2π)) + logdet) - 0.5*(prec*((x-mean).T @ (P @ (x-mean))))`
+    with `rank = self._rank`, `logdet = self._logdet`, `P = self._prec_op` (the model's `gram D`). -/
+noncomputable def gmrfLogpdf (D : FMat) (rank : ℕ) (logdet δ : ℝ) (mean x : Fin D.cols → ℝ) : ℝ :=
+  0.5 * ((rank : ℝ) * (Real.log δ - Real.log (2 * Real.pi)) + logdet)
+    - 0.5 * (δ * ((x - mean) ⬝ᵥ ((precMatrix D).mulVec (x - mean))))
+
+/-- `LMRF.logpdf(x)`: `len(Dx)*(-(log 2 + log scale)) - ‖Dx‖₁/scale`, `Dx = D @ (x - location)`. -/
+noncomputable def lmrfLogpdf (D : FMat) (scale : ℝ) (loc x : Fin D.cols → ℝ) : ℝ :=
+  (D.rows : ℝ) * (-(Real.log 2 + Real.log scale))
+    - (∑ k, |(toMatrix D).mulVec (x - loc) k|) / scale
+
+/-- `CMRF.logpdf(x)`: `-len(Dx)*log π + Σ (log scale - log(Dx² + scale²))`, `Dx = D @ (x - location)`. -/
+noncomputable def cmrfLogpdf (D : FMat) (scale : ℝ) (loc x : Fin D.cols → ℝ) : ℝ :=
+  -(D.rows : ℝ) * Real.log Real.pi
+    + ∑ k, (Real.log scale - Real.log (((toMatrix D).mulVec (x - loc) k) ^ 2 + scale ^ 2))
+
+/-- **`GMRF.logpdf` in terms of the operator (`mrf_uses_operator`, Gaussian part):**
+    `logpdf(x) - logpdf(mean) = -δ/2 · ‖D (x - mean)‖²` for every operator of the model, every
+    declared `rank`/`logdet` (they only enter the constant). -/
+theorem gmrf_logpdf_sub_mean (D : FMat) (rank : ℕ) (logdet δ : ℝ) (mean x : Fin D.cols → ℝ) :
+    gmrfLogpdf D rank logdet δ mean x - gmrfLogpdf D rank logdet δ mean mean
+      = -δ / 2 * ∑ k, ((toMatrix D).mulVec (x - mean) k) ^ 2 := by
+  unfold gmrfLogpdf
+  rw [precMatrix_quadratic_form, precMatrix_quadratic_form, sub_self]
+  simp only [Matrix.mulVec_zero, Pi.zero_apply]
+  have h0 : ∑ _k : Fin D.rows, (0 : ℝ) ^ 2 = 0 := by simp
+  rw [h0]; ring
+
+example (x : Fin 4 → ℝ) :
+    gmrfLogpdf (diffOp 1 .zero 4) 4 0 3 0 x - gmrfLogpdf (diffOp 1 .zero 4) 4 0 3 0 0
+      = -3 / 2 * ∑ k, ((toMatrix (diffOp 1 .zero 4)).mulVec (x - 0) k) ^ 2 :=
+  gmrf_logpdf_sub_mean _ _ _ _ _ _
+
+/-- **The three Markov-random-field priors see `x` only through `D (x - location)`
+    (`mrf_uses_operator`):** if `D(x - loc) = D(x' - loc)` then `GMRF`, `LMRF` and `CMRF` assign
+    `x` and `x'` the same log-density. -/
+theorem mrf_uses_operator (D : FMat) (loc x x' : Fin D.cols → ℝ)
+    (h : (toMatrix D).mulVec (x - loc) = (toMatrix D).mulVec (x' - loc))
+    (rank : ℕ) (logdet δ scale : ℝ) :
+    gmrfLogpdf D rank logdet δ loc x = gmrfLogpdf D rank logdet δ loc x'
+      ∧ lmrfLogpdf D scale loc x = lmrfLogpdf D scale loc x'
+      ∧ cmrfLogpdf D scale loc x = cmrfLogpdf D scale loc x' := by
+  refine ⟨?_, ?_, ?_⟩
+  · unfold gmrfLogpdf; rw [precMatrix_quadratic_form, precMatrix_quadratic_form, h]
+  · unfold lmrfLogpdf; rw [h]
+  · unfold cmrfLogpdf; rw [h]
+
+example (x : Fin (diffOp 0 .zero 3).cols → ℝ) :
+    cmrfLogpdf (diffOp 0 .zero 3) 2 0 x = cmrfLogpdf (diffOp 0 .zero 3) 2 0 x :=
+  (mrf_uses_operator _ 0 x x rfl 0 0 0 2).2.2
+
+/-- **Invariance under the null space:** adding a null vector of `D` (a constant for
+    periodic/Neumann order 1, an affine ramp for Neumann order 2, …) changes none of the three
+    log-densities — these priors are improper exactly along `ker D`. -/
+theorem mrf_logpdf_add_ker (D : FMat) (loc x w : Fin D.cols → ℝ)
+    (hw : w ∈ LinearMap.ker (toMatrix (K := ℝ) D).mulVecLin)
+    (rank : ℕ) (logdet δ scale : ℝ) :
+    gmrfLogpdf D rank logdet δ loc (x + w) = gmrfLogpdf D rank logdet δ loc x
+      ∧ lmrfLogpdf D scale loc (x + w) = lmrfLogpdf D scale loc x
+      ∧ cmrfLogpdf D scale loc (x + w) = cmrfLogpdf D scale loc x := by
+  refine mrf_uses_operator D loc (x + w) x ?_ rank logdet δ scale
+  have hw' : (toMatrix (K := ℝ) D).mulVec w = 0 := hw
+  rw [show x + w - loc = (x - loc) + w by abel, Matrix.mulVec_add, hw', add_zero]
+
+example (x : Fin (diffOp 1 .neumann 6).cols → ℝ) (c scale : ℝ) :
+    lmrfLogpdf (diffOp 1 .neumann 6) scale 0 (x + c • restr _ (fun _ => 1))
+      = lmrfLogpdf (diffOp 1 .neumann 6) scale 0 x := by
+  refine (mrf_logpdf_add_ker _ 0 x _ ?_ 0 0 0 scale).2.1
+  rw [ker_diffOp_const (Or.inr (Or.inl ⟨rfl, rfl⟩))]
+  refine Submodule.smul_mem _ _ (Submodule.subset_span ⟨0, ?_⟩)
+  simp [genConst]
+
+/-- **Positive definiteness:** whenever `D` has trivial kernel, the precision `DᵀD` is positive
+    definite over `ℝ`; its determinant is positive (so `log det` exists) and its rank is the
+    dimension. -/
+theorem precMatrix_posDef_of_ker_bot (D : FMat)
+    (h : LinearMap.ker (toMatrix (K := ℝ) D).mulVecLin = ⊥) :
+    (precMatrix (K := ℝ) D).PosDef ∧ 0 < (precMatrix (K := ℝ) D).det
+      ∧ (precMatrix (K := ℝ) D).rank = D.cols := by
+  have hinj : Function.Injective (toMatrix (K := ℝ) D).mulVec := by
+    have := LinearMap.ker_eq_bot.1 h
+    rwa [Matrix.coe_mulVecLin] at this
+  have hpd : (precMatrix (K := ℝ) D).PosDef := by
+    rw [(toMatrix_gram D).2, ← Matrix.conjTranspose_eq_transpose_of_trivial]
+    exact Matrix.PosDef.conjTranspose_mul_self _ hinj
+  refine ⟨hpd, hpd.det_pos, ?_⟩
+  rw [rank_precision_eq, rank_of_ker_bot _ h]
+
+example : 0 < (precMatrix (K := ℝ) (diffOp 1 .backward 5)).det :=
+  (precMatrix_posDef_of_ker_bot _
+    (ker_diffOp_trivial (Or.inr (Or.inl ⟨rfl, Or.inr (Or.inl rfl)⟩)) 5)).2.1
+
+/-- **Zero boundary condition (any order ≥ 0), 1-D and 2-D, and order 0 with any bc: the GMRF
+    precision is positive definite**, `det P > 0`, `rank P = dim` — the `(rank, logdet)` GMRF derives
+    from the Cholesky factor in its `bc_type == 'zero'` branch are those of a genuine SPD matrix. -/
+theorem precision_zero_posDef {order : ℕ} {bc : BC} (h : KerTrivial order bc) (n : ℕ) :
+    ((precMatrix (K := ℝ) (diffOp order bc n)).PosDef
+        ∧ 0 < (precMatrix (K := ℝ) (diffOp order bc n)).det
+        ∧ (precMatrix (K := ℝ) (diffOp order bc n)).rank = n)
+      ∧ ((precMatrix (K := ℝ) (diffOp2D order bc n)).PosDef
+        ∧ 0 < (precMatrix (K := ℝ) (diffOp2D order bc n)).det
+        ∧ (precMatrix (K := ℝ) (diffOp2D order bc n)).rank = n * n) := by
+  have h1 := precMatrix_posDef_of_ker_bot _ (ker_diffOp_trivial (K := ℝ) h n)
+  have h2 := precMatrix_posDef_of_ker_bot _ (ker_diffOp2D_trivial (K := ℝ) h n)
+  obtain ⟨a1, b1, c1⟩ := h1
+  obtain ⟨a2, b2, c2⟩ := h2
+  exact ⟨⟨a1, b1, c1.trans (diffOp_cols_of_class (Or.inl h))⟩,
+    ⟨a2, b2, c2.trans (diffOp2D_cols_of_class (Or.inl h))⟩⟩
+
+example : (precMatrix (K := ℝ) (diffOp 2 .zero 6)).PosDef :=
+  (precision_zero_posDef (Or.inr (Or.inr ⟨le_refl 2, rfl⟩)) 6).1.1
+
+/-- **Certificate for `GMRF._logdet` in the zero-bc branch (`gmrf_logdet_rank_eq`):** for *any*
+    upper-triangular `U` with positive diagonal and `UᵀU = P` (what `sparse_cholesky` returns),
+    `2·Σ log U_ii = log det P` — the value the code stores as `_logdet`. -/
+theorem gmrf_logdet_cert (D : FMat) (U : Matrix (Fin D.cols) (Fin D.cols) ℝ)
+    (htri : U.IsUpperTriangular) (hpos : ∀ i, 0 < U i i) (hU : Uᵀ * U = precMatrix D) :
+    2 * ∑ i, Real.log (U i i) = Real.log (precMatrix (K := ℝ) D).det := by
+  rw [← hU, Matrix.det_mul, Matrix.det_transpose, Matrix.det_of_isUpperTriangular htri,
+    Real.log_mul, Real.log_prod]
+  · ring
+  · exact fun i _ => (hpos i).ne'
+  · exact (Finset.prod_pos fun i _ => hpos i).ne'
+  · exact (Finset.prod_pos fun i _ => hpos i).ne'
+
+/-- **Order 0: the precision is the identity matrix** for every `bc` and `n` (so `U = I` is its
+    Cholesky factor and `log det P = 0`), although GMRF declares rank `n - 1` for
+    periodic/Neumann. -/
+theorem precMatrix_order0 (bc : BC) (n : ℕ) :
+    precMatrix (K := ℝ) (diffOp 0 bc n) = 1 := by
+  ext i j
+  show (((gram (firstOrder .none n)).e i j : ℤ) : ℝ) = (1 : Matrix _ _ ℝ) i j
+  rw [gram_entry, Matrix.one_apply]
+  simp only [firstOrder_none_entry]
+  have hi : (i : ℕ) < n := i.2
+  rw [Finset.sum_eq_single (i : ℕ)]
+  · by_cases hij : i = j
+    · subst hij; simp
+    · have : (j : ℕ) ≠ (i : ℕ) := fun h => hij (Fin.ext h.symm)
+      simp [hij, this]
+  · intro k _ hk; simp [Ne.symm hk]
+  · intro h; exact absurd (Finset.mem_range.2 hi) h
+
+example : 2 * ∑ i : Fin (diffOp 0 .periodic 5).cols, Real.log ((1 : Matrix _ _ ℝ) i i)
+    = Real.log (precMatrix (K := ℝ) (diffOp 0 .periodic 5)).det :=
+  gmrf_logdet_cert _ 1 Matrix.blockTriangular_one (fun i => by simp)
+    (by rw [precMatrix_order0]; simp)
+
+end gmrf
+
 end CuqiVerif.C20
+
+
